@@ -137,7 +137,9 @@ func RunOne(t *testing.T, prog *Program, tape *Tape, keepTrace bool) (res *Resul
 				s.rpcs = append(s.rpcs, rs)
 			}
 			for _, rs := range s.rpcs {
-				s.spawnClient(rs, 0, rs.r.Client)
+				if !rs.r.Nested {
+					s.spawnClient(rs, 0, rs.r.Client)
+				}
 			}
 			maxSteps := prog.Cfg.MaxSteps
 			if maxSteps == 0 {
